@@ -574,14 +574,25 @@ def sinkhorn_vectors_sparse_internal(
     if distributions.shape[1] == 0:
         return result
 
+    # Distributions without mass keep a zero vector (as for the exact LOT) and must stay out of the batch:
+    # their non-finite scalings would stop the Sinkhorn iterations of every other row of the batch.
+    row_mass = np.zeros(distributions.shape[0])
+    for i in range(distributions.shape[0]):
+        row_mass[i] = distributions[i].sum()
+    nonzero_rows = np.where(row_mass > 0)[0]
+    if nonzero_rows.shape[0] == 0:
+        return result
+    distributions = distributions[nonzero_rows]
+
     transport_plan_u, transport_plan_v, transport_plan_K = sinkhorn_plan_batch(
         reference_dist, distributions, cost
     )
     transport_image_sets = sinkhorn_transport_images(
         transport_plan_K, transport_plan_u, transport_plan_v, vectors
     )
-    for batch in range(transport_image_sets.shape[0]):
-        transport_images = transport_image_sets[batch]
+    for batch_index in range(transport_image_sets.shape[0]):
+        batch = nonzero_rows[batch_index]
+        transport_images = transport_image_sets[batch_index]
 
         if spherical_vectors:
             l2_normalize(transport_images)
